@@ -137,39 +137,87 @@ def minimal_subtree(j, flags, budget):
     return j
 
 
-def norm_class(j):
-    d = describe(j)
-    for a, b in (('ParenthesisedAdd', 'Sum'), ('ParenthesisedMul', 'Product'), ('ParenthesisedDiv', 'Quotient'),
-                 ('ParenthesisedPow', 'Power'), ('Product(-1,x,..)', 'Product'), ('IntLiteral<0', 'IntLiteral'),
-                 ('FloatLiteral<0', 'FloatLiteral')):
-        d = d.replace(a, b)
-    return d
+PRODUCTS = ('Product', 'PProduct', 'RawProduct')
+QUOTS = ('Quotient', 'PQuotient', 'RawQuotient')
+SUMS = ('Sum', 'PSum', 'RawSum')
 
 
-def shape(j):
-    kinds = sorted({norm_class(c) for _, c in children(j) if c[0] not in gen.LEAVES})
-    return f'{norm_class(j)}[{typeof(j)}]({",".join(kinds)})'
+def nested_multineg(j):
+    """a Product((-1, a, b, ..)) with more than one factor after the sign, directly inside a Product"""
+    for n in walk(j):
+        if n[0] in PRODUCTS:
+            for _, c in children(n):
+                if c[0] in PRODUCTS and gen.is_neg_form(c) and len(c[1]) >= 3:
+                    return True
+    return False
 
 
-def classify(j, flags, o):
-    """signature of a failing (tree, flags)"""
+def unnest_multineg(j, counter):
+    """Product((.., Product((-1, a, b)), ..)) -> Product((.., Product((-1, Product((a, b)))), ..)) (same value)"""
+    if j[0] in gen.LEAVES:
+        return j
+    new = []
+    for _, c in children(j):
+        c = unnest_multineg(c, counter)
+        if j[0] in PRODUCTS and c[0] in PRODUCTS and gen.is_neg_form(c) and len(c[1]) >= 3:
+            counter[0] += 1
+            c = [c[0], [c[1][0], ['Product', c[1][1:]]]]
+        new.append(c)
+    return gen.with_children(j, new)
+
+
+def pattern(m, cls):
+    """name of the known root cause whose syntactic trigger the minimal failing tree shows, or None"""
+    if cls == 'algebra' and nested_multineg(m):
+        return 'nested-negated-product-loses-factors'
+    if cls != 'integer-division':
+        return None
+    for n in walk(m):
+        if n[0].endswith('Power') and typeof(n[1]) == 'real' and n[2][0] in ('Int', 'Raw') and n[2][1] == 0:
+            return 'real-power-zero-becomes-integer-one'
+        if n[0] == 'Real' and n[1] in ('-1.0', '-1.', '-1'):
+            return 'real-minus-one-literal-becomes-sign'
+    if m[0] in QUOTS and m[1][0] in SUMS:
+        return 'quotient-distributed-over-sum'
+    if m[0] in QUOTS and (m[1][0] in QUOTS or m[2][0] in QUOTS):
+        return 'nested-quotients-merged'
+    if m[0] in PRODUCTS and any(n[0] in QUOTS for n in walk(m)):
+        return 'product-factor-moved-into-numerator'
+    return None
+
+
+def exact_equal(m, flags):
+    """does the simplified tree agree with the original over the rationals (no truncation)?"""
+    return evaluate(m, flags, EXACT).kind is None
+
+
+def classify(j, flags, o, shrink_budget=120):
+    """-> signature, minimal tree, minimal flags, outcome on the minimal tree"""
     mf = minimal_flags(j, flags)
-    m = minimal_subtree(j, mf, [40])
+    m = minimal_subtree(j, mf, [30])
+    m = gen.shrink(m, lambda t: fails(t, mf), budget=shrink_budget)
+    mf = minimal_flags(m, mf)
     om = fails(m, mf) or o
     if om.kind == 'uneval':
-        return f'C08:unevaluable-result:{flags_name(mf)}:{shape(m)}', m, mf, om
-    # the same comparison over the rationals (no truncation)
-    ex = evaluate(m, mf, EXACT)
-    if ex.kind is None and any(n[0] in ('Quotient', 'PQuotient', 'RawQuotient') or n[0].endswith('Power') for n in walk(m)):
+        return f'C08:unevaluable-result:{flags_name(mf)}:{gen.abstract(m)}', m, mf, om
+    has_div = any(n[0] in QUOTS or n[0].endswith('Power') for n in walk(m))
+    if has_div and exact_equal(m, mf):
         cls = 'integer-division'
-        return f'C08:{cls}:{flags_name(mf)}:{norm_class(m)}', m, mf, om
-    if om.kind == 'div0':
-        return f'C08:introduces-division-by-zero:{flags_name(mf)}:{shape(m)}', m, mf, om
-    return f'C08:algebra:{flags_name(mf)}:{shape(m)}', m, mf, om
+    elif om.kind == 'div0':
+        cls = 'introduces-division-by-zero'
+    else:
+        cls = 'algebra'
+    name = pattern(m, cls)
+    if name:
+        return f'C08:{cls}:{name}', m, mf, om
+    return f'C08:{cls}:{flags_name(mf)}:{gen.abstract(m)}', m, mf, om
 
 
 def fmt(st):
     return str(st[1]) if st[0] == 'ok' else st[0]
+
+
+_SEEN = {}
 
 
 def check_case(case, ctx):
@@ -197,9 +245,19 @@ def check_case(case, ctx):
             ctx.sample({'tree': j, 'flags': flags_name(flags), 'original': fgen(gen.decode(j)), 'simplified': str(o.simplified)})
         if o.kind is None:
             continue
+        coarse = f'{o.kind}:{describe(j)}:{flags & 1}'
+        _SEEN[coarse] = _SEEN.get(coarse, 0) + 1
+        if not ctx.thorough and _SEEN[coarse] > 4 and _SEEN[coarse] % 8:
+            # budget: frequent look-alike failures are not all minimised in the quick tier
+            ctx.count('failure-not-minimised')
+            continue
         sig, m, mf, om = classify(j, flags, o)
-        detail = (f'simplify({fgen(gen.decode(m))}, {flags_name(mf)}) = {om.simplified}; at {om.env} the original evaluates to '
-                  f'{fmt(om.a)} but the simplified expression to {fmt(om.b)}')
+        try:
+            simp = gen.show(gen.encode(om.simplified))
+        except gen.NotEncodable:
+            simp = str(om.simplified)
+        detail = (f'simplify({gen.show(m)}, {flags_name(mf)}) = {simp}; at {om.env} the original evaluates to '
+                  f'{fmt(om.a)} but the simplified expression to {fmt(om.b)} ([..] = Parenthesised* node)')
         ctx.fail(sig, {'tree': m, 'flags': [mf]}, detail)
 
 
@@ -230,8 +288,13 @@ def build_case(ch, thorough, ctx):
     cfg = {'noq': ch.pick([CFG_NOQ, CFG_NOPAREN]), 'q': CFG_Q}[prof]
     typ = ch.pick(['int', 'real', 'log', 'int'])
     tree = pow2_literals(gen.build_tree(ch, typ, depth, cfg))
-    if prof == 'noq' and typ != 'real':
-        ctx.exclude('integer Quotient not generated (known: integer-division findings)')
+    if prof == 'noq':
+        if typ != 'real':
+            ctx.exclude('integer Quotient not generated (known: integer-division findings)')
+        n = [0]
+        tree = unnest_multineg(tree, n)
+        if n[0]:
+            ctx.exclude('Product((-1,a,b)) nested in a Product rewritten to Product((-1, Product((a,b)))) (known: nested-negated-product-loses-factors)')
     if thorough:
         flags = list(range(32))
     else:
